@@ -796,6 +796,7 @@ func (t *queryTerm) QueryConditions(pc *parserContext) (ConditionsSet, error) {
 				}
 				if len(e.Range) == 1 {
 					tcs[1].Duration = tcs[0].Duration
+					tcs[1].ReferenceTimeFactor = tcs[0].ReferenceTimeFactor
 					tcs[1].Summands = make([]TimeConditionSummand, len(tcs[0].Summands))
 					copy(tcs[1].Summands, tcs[0].Summands)
 					empty[1] = empty[0]
